@@ -1,13 +1,18 @@
 #!/bin/bash
-# parallel variant of rerun_seeded.sh: 4 seeded changes at a time
-cd /verif
+# rerun_seeded_par.sh [name-prefix]: run the checks of every stored seeded change against a scratch copy of /repo with the change
+# applied (never /repo itself), 4 at a time; rewrites seeded/RESULTS.tsv.  meta.json "props" = properties whose checks are run.
+ROOT=$(cd "$(dirname "$(readlink -f "$0")")/.." && pwd)
+cd $ROOT
+T=$(mktemp)
+export ROOT T
 ls -d seeded/${1:-}*/ | xargs -P 4 -I{} bash -c '
  d={}; n=$(basename $d); [ -f $d/patch.diff ] || exit 0
  props=$(python3 -c "import json;print(\",\".join(json.load(open(\"$d/meta.json\")).get(\"props\",[])))" 2>/dev/null); [ -z "$props" ] && exit 0
- res=$(vf/try_patch.sh $d/patch.diff $props 2>&1)
+ res=$($ROOT/vf/try_patch.sh $d/patch.diff $props 2>&1)
  line=$(echo "$res" | grep CHECKS | sed "s/CHECKS: //")
  how=$(echo "$res" | grep -E "^VIOLATION" | sed -E "s/.*property=(C[0-9]+).*obligations=([0-9]+)( failing-input=([^ ]*))?.*/\1:\2:\4/" | tr "\n" " ")
  und=$(echo "$res" | grep -E "^UNDECIDED" | head -1 | cut -c1-120)
- printf "%s\t%s\t%s\t%s\n" "$n" "$line" "$how" "$und" >> /tmp/sv_logs/results_par.tsv
+ printf "%s\t%s\t%s\t%s\n" "$n" "$line" "$how" "$und" >> $T
 '
-sort /tmp/sv_logs/results_par.tsv > seeded/RESULTS.tsv
+sort $T > seeded/RESULTS.tsv; rm -f $T
+wc -l seeded/RESULTS.tsv
